@@ -462,8 +462,41 @@ def gen_recursive(rng: random.Random):
     return ("MapV", ("Scalar", ("KStr",), None, [], [], []), ("UnionV", [sc(), lazy]), [], [], None)
 
 
-def gen_cases(rng: random.Random, n: int) -> List[JCase]:
+def sharing_cases(rng: random.Random) -> List[JCase]:
+    """One validator object at two positions of one tree, bare at one and under Optional at the other
+    (either order): null is accepted at the Optional position only, in validator and schema alike."""
     out: List[JCase] = []
+    kids = [frag_scalar(rng) for _ in range(3)]
+    kids += [("ListV", frag_scalar(rng), [], [], None), ("DictAnyV", [P(S("a"), frag_scalar(rng))], None, None, False),
+             ("EqualsV", S("x"), [])]
+    NULL = ("VNone",)
+    for t in kids:
+        opt = ("OptionalV", ("NoneV", None), t)
+        for order in (0, 1):
+            ks = [P(S("used"), t), P(S("limit"), opt)]
+            tup = [t, opt]
+            if order:
+                ks.reverse()
+                tup.reverse()
+            shapes = [("DictAnyV", ks, None, None, True), ("RecordV", ks, N(0), None, None, False),
+                      ("NTupleV", tup, None, Some(("CoTupleOrList",))), ("ListV", ("UnionV", [opt]), [], [], None)]
+            for v in shapes:
+                good = conform(t, rng)
+                if v[0] in ("DictAnyV", "RecordV"):
+                    mk = lambda a, b: ("VDict", [P(S("used"), a), P(S("limit"), b)])
+                elif v[0] == "NTupleV":
+                    mk = lambda a, b, o=order: ("VList", [b, a] if o else [a, b])
+                else:
+                    mk = lambda a, b: ("VList", [a, b])
+                for x in (mk(good, good), mk(NULL, good), mk(good, NULL), mk(NULL, NULL)):
+                    c = JCase(v, x, None, "sharing")
+                    c.share = True
+                    out.append(c)
+    return out
+
+
+def gen_cases(rng: random.Random, n: int) -> List[JCase]:
+    out: List[JCase] = sharing_cases(rng)
     while len(out) < n:
         rec = rng.random() < 0.15
         del POOL[:]
@@ -683,3 +716,7 @@ def replay(path: str) -> int:
         return 1
     print("property holds on this input")
     return 0
+
+
+from ..facts import attach as _attach, typechecks as _typechecks  # noqa: E402
+_attach(globals(), _typechecks.obligation("C11"))
